@@ -173,6 +173,9 @@ impl<'a> World<'a> {
         let gn = r.name();
         let ctx = format!("{}:{}", mode_name(m), state);
         let ok = self.judge(opk, &ctx, gn, name, ok_allowed, &errs);
+        if !ok && is_space_err(gn) {
+            self.blame_stale_info(dh.vol, opk, gn);
+        }
         if ok && will_create && is_space_err(gn) {
             self.probes.hit("create_refused_no_space");
         }
@@ -258,6 +261,22 @@ impl<'a> World<'a> {
                 fh.chain = ch;
             }
             let _ = (free_before, &eff);
+        }
+    }
+
+    /// C16: "a wrong or out-of-range record found at mount never makes an operation fail". Called when an
+    /// operation was refused for lack of space although space was there.
+    pub fn blame_stale_info(&mut self, vol: usize, opk: &'static str, gotn: &str) {
+        let v = &self.vols[vol];
+        if !v.geom.fat32 {
+            return;
+        }
+        if let Some((count0, hint0, free0)) = v.info_at_mount {
+            let n = v.geom.clusters + 2;
+            let wrong = (count0 != 0xFFFF_FFFF && count0 != free0) || (hint0 != 0xFFFF_FFFF && !(hint0 >= 2 && hint0 < n));
+            if wrong {
+                self.violate("C16", "operation-fails-on-wrong-fsinfo", &format!("{}:{}", opk, gotn), format!("FSInfo at mount said count {} hint {} (truth: {} free of {} clusters); {} then failed with {} although space was available", count0, hint0, free0, v.geom.clusters, opk, gotn));
+            }
         }
     }
 
@@ -531,7 +550,16 @@ impl<'a> World<'a> {
         let r = got(self.call(|fs| fs.write(h, &data, fl)));
         let gn = r.name();
         let ctx = if !fh.writable { "readonly-handle" } else if free < need_min { "no-space" } else { "space" };
-        let ok = self.judge(opk, ctx, gn, &format!("off {} len {} free {} need {}", fh.off, len, free, need_min), ok_allowed, &errs);
+        let mut ok = self.judge(opk, ctx, gn, &format!("off {} len {} free {} need {}", fh.off, len, free, need_min), ok_allowed, &errs);
+        if !ok && fh.writable && is_space_err(gn) {
+            self.blame_stale_info(fh.vol, opk, gn);
+        }
+        if !ok && !self.faulty && fh.writable && !matches!(gn, "Ok" | "PANIC" | "HANG") {
+            // the refusal has been recorded as a violation; follow the library's own account of what it did so
+            // that the rest of the history (what the file now reads back) is still judged
+            self.aborted = None;
+            ok = true;
+        }
         if gn == "ReadOnly" {
             allow = Allow { vol: Some(fh.vol), read_only: true, refused: true, ..Default::default() };
         }
@@ -890,6 +918,9 @@ impl<'a> World<'a> {
         let r = got(self.call(|fs| fs.make_dir(h, &nm, fl)));
         let gn = r.name();
         let ok = self.judge(opk, state, gn, name, ok_allowed, &errs);
+        if !ok && is_space_err(gn) {
+            self.blame_stale_info(dh.vol, opk, gn);
+        }
         if gn != "Ok" {
             allow = Allow { vol: Some(dh.vol), read_only: true, refused: true, ..Default::default() };
             if ok && is_space_err(gn) {
